@@ -1,5 +1,5 @@
 // C17 subject driver: a promela-datamodel interpreter created in-process (Interpreter::fromXML), stepped until the
-// datamodel exists; then the whole of stdin is read (one command per line) and one answer line per command is written.
+// datamodel exists (the document declares  boot : int = 1  and  bootarr : int[3]  without content); then the whole of stdin is read (one command per line) and one answer line per command is written.
 //
 //   commands (fields separated by TAB):
 //     R                      fresh datamodel instance (Factory::createDataModel("promela", <interpreter impl>)); answer "OK"
@@ -19,11 +19,11 @@
 //   fired (backtrace on stderr, then "@@HANG-AT <command index>").
 //   Every answer line starts with '@'; other stdout lines (library diagnostics such as AST dumps) are ignored by the driver.
 //
-//   Process discipline (ASan/UBSan reports are fatal, so every evaluation that may die runs in a process of its own that can
-//   be lost): runs of consecutive E/B commands are executed by a forked child that inherits the datamodel state; a shared
-//   counter tells the parent how many it completed; when the child dies the parent answers @CRASH for the next command and
-//   forks a new child for the rest. State-changing commands (D A X S L) are first tried in a forked child; only if that
-//   child survives are they executed in the parent (they are deterministic), so the parent never dies.
+//   Process discipline (ASan/UBSan reports are fatal and ASan cannot count, so every evaluation runs in a process that may be
+//   lost): the parent only creates the interpreter and supervises. A forked child executes the commands; a shared counter
+//   tells the parent how many it answered. When the child dies at command k the parent answers @CRASH for k (the child itself
+//   answers @HANG), marks k as skipped and forks a new child, which silently re-executes the state-changing commands since
+//   the last R (minus skipped ones) and continues after k. A command that killed its process is thus never applied.
 #define protected public
 #include "uscxml/plugins/datamodel/promela/PromelaDataModel.h"
 #undef protected
@@ -108,6 +108,12 @@ static std::string fmtData(const Data& d) {
 static DataModel dm;
 static PromelaDataModel* pdm = NULL;
 
+static bool fresh(std::shared_ptr<InterpreterImpl> impl) {
+	dm = Factory::getInstance()->createDataModel("promela", impl.get());
+	pdm = dynamic_cast<PromelaDataModel*>(DMPeek(dm).impl().get());
+	return pdm != NULL;
+}
+
 // executes one command against the datamodel; returns the answer line (without newline)
 static std::string execute(const std::vector<std::string>& f) {
 	const std::string& c = f[0];
@@ -176,7 +182,7 @@ int main(int argc, char** argv) {
 	signal(SIGPROF, onProf);
 	const char* xml =
 	    "<scxml xmlns=\"http://www.w3.org/2005/07/scxml\" version=\"1.0\" datamodel=\"promela\" name=\"pml\">"
-	    "<datamodel><data id=\"boot\" type=\"int\" expr=\"1\"/></datamodel>"
+	    "<datamodel><data id=\"boot\" type=\"int\" expr=\"1\"/><data id=\"bootarr\" type=\"int[3]\"/></datamodel>"
 	    "<state id=\"s0\"/></scxml>";
 	Interpreter ip;
 	std::shared_ptr<InterpreterImpl> impl;
@@ -215,95 +221,79 @@ int main(int argc, char** argv) {
 	}
 	bool nofork = getenv("VPML_NOFORK") != NULL;   // debugging aid: everything in one process
 
-	size_t i = 0;
-	while (i < lines.size()) {
-		std::vector<std::string> f = split(lines[i]);
-		const std::string& c = f[0];
-		if (c == "R") {
-			dm = Factory::getInstance()->createDataModel("promela", impl.get());
-			pdm = dynamic_cast<PromelaDataModel*>(DMPeek(dm).impl().get());
-			say(pdm ? "@OK" : "@FATAL");
-			i++;
-			continue;
-		}
-		if (c == "T" && f.size() >= 2) {
-			watchdog_ms = atol(f[1].c_str());
-			say("@OK");
-			i++;
-			continue;
-		}
-		if (nofork) {
+	if (nofork) {
+		for (size_t i = 0; i < lines.size(); i++) {
+			std::vector<std::string> f = split(unchain(lines[i]));
+			if (f[0] == "T" && f.size() >= 2) { watchdog_ms = atol(f[1].c_str()); say("@OK"); continue; }
+			if (f[0] == "R") { say(fresh(impl) ? "@OK" : "@FATAL"); continue; }
 			if (watchdog_ms > 0) arm(watchdog_ms);
-			std::string a = execute(split(unchain(lines[i])));
+			std::string a = execute(f);
 			arm(0);
 			say(a);
-			i++;
-			continue;
 		}
-		if (isPure(lines[i])) {
-			size_t j = i;
-			while (j < lines.size() && isPure(lines[j])) j++;
-			// run [i, j) in children
-			while (i < j) {
-				*done_counter = 0;
-				pid_t pid = fork();
-				if (pid < 0) { say("@FATAL fork"); return 3; }
-				if (pid == 0) {
-					for (size_t k = i; k < j; k++) {
-						if (watchdog_ms > 0) arm(watchdog_ms);
-						std::string a = execute(split(unchain(lines[k])));
-						arm(0);
-						say(a);
-						(*done_counter)++;
-					}
-					_exit(0);
-				}
-				int status = 0;
-				while (waitpid(pid, &status, 0) < 0 && errno == EINTR) {}
-				size_t done = (size_t)*done_counter;
-				i += done;
-				if (i >= j && WIFEXITED(status) && WEXITSTATUS(status) == 0)
-					break;
-				if (i >= j) break;   // died after the last answer: nothing to attribute
-				if (WIFEXITED(status) && WEXITSTATUS(status) == 97) {
-					mark("HANG", i);          // child already answered @HANG
-				} else {
-					char buf[64];
-					if (WIFSIGNALED(status)) snprintf(buf, sizeof(buf), "@CRASH signal=%d", WTERMSIG(status));
-					else snprintf(buf, sizeof(buf), "@CRASH exit=%d", WEXITSTATUS(status));
-					mark("CRASH", i);
-					say(buf);
-				}
-				i++;
-				while (i < j && isChained(lines[i])) { say("@SKIP"); i++; }
+		return 0;
+	}
+
+	// The parent executes nothing. A child runs the commands from `i` to the end of the input; when it dies at command k
+	// the parent answers for k, remembers k as skipped and starts a new child, which first silently re-executes the
+	// state-changing commands since the last R (except skipped ones) to get the datamodel into the same state.
+	std::vector<bool> skipped(lines.size(), false);
+	size_t i = 0;
+	while (i < lines.size()) {
+		*done_counter = 0;
+		pid_t pid = fork();
+		if (pid < 0) { say("@FATAL fork"); return 3; }
+		if (pid == 0) {
+			// re-establish: last T and last R before i
+			size_t lastR = std::string::npos;
+			for (size_t k = 0; k < i; k++) {
+				if (lines[k] == "R") lastR = k;
+				else if (lines[k].compare(0, 2, "T\t") == 0) watchdog_ms = atol(lines[k].c_str() + 2);
 			}
-			continue;
-		}
-		// state-changing command: trial in a child first
-		{
-			pid_t pid = fork();
-			if (pid < 0) { say("@FATAL fork"); return 3; }
-			if (pid == 0) {
+			for (size_t k = (lastR == std::string::npos ? 0 : lastR); k < i; k++) {
+				if (skipped[k] || isPure(lines[k]) || lines[k].compare(0, 2, "T\t") == 0) continue;
+				if (lines[k] == "R") { fresh(impl); continue; }
 				if (watchdog_ms > 0) arm(watchdog_ms);
-				std::string a = execute(f);
+				execute(split(lines[k]));
 				arm(0);
-				_exit(0);
 			}
-			int status = 0;
-			while (waitpid(pid, &status, 0) < 0 && errno == EINTR) {}
-			if (WIFEXITED(status) && WEXITSTATUS(status) == 0) {
-				say(execute(f));
-			} else if (WIFEXITED(status) && WEXITSTATUS(status) == 97) {
-				mark("HANG", i);
-			} else {
-				char buf[64];
-				if (WIFSIGNALED(status)) snprintf(buf, sizeof(buf), "@CRASH signal=%d", WTERMSIG(status));
-				else snprintf(buf, sizeof(buf), "@CRASH exit=%d", WEXITSTATUS(status));
-				mark("CRASH", i);
-				say(buf);
+			bool prevDied = (i > 0 && skipped[i - 1]);
+			for (size_t k = i; k < lines.size(); k++) {
+				std::string a;
+				if (isChained(lines[k]) && prevDied) {
+					a = "@SKIP";
+				} else {
+					prevDied = false;
+					std::vector<std::string> f = split(unchain(lines[k]));
+					if (f[0] == "T" && f.size() >= 2) { watchdog_ms = atol(f[1].c_str()); a = "@OK"; }
+					else if (f[0] == "R") { a = fresh(impl) ? "@OK" : "@FATAL"; }
+					else {
+						if (watchdog_ms > 0) arm(watchdog_ms);
+						a = execute(f);
+						arm(0);
+					}
+				}
+				say(a);
+				(*done_counter)++;
 			}
-			i++;
+			_exit(0);
 		}
+		int status = 0;
+		while (waitpid(pid, &status, 0) < 0 && errno == EINTR) {}
+		i += (size_t)*done_counter;
+		if (i >= lines.size())
+			break;
+		if (WIFEXITED(status) && WEXITSTATUS(status) == 97) {
+			mark("HANG", i);          // the child already answered @HANG
+		} else {
+			char buf[64];
+			if (WIFSIGNALED(status)) snprintf(buf, sizeof(buf), "@CRASH signal=%d", WTERMSIG(status));
+			else snprintf(buf, sizeof(buf), "@CRASH exit=%d", WEXITSTATUS(status));
+			mark("CRASH", i);
+			say(buf);
+		}
+		skipped[i] = true;
+		i++;
 	}
 	return 0;
 }
